@@ -1,7 +1,7 @@
 (* Check/RewriteCases.v — verdicts for the rewriter correspondence (C07).
    0 ok; 1 model/implementation mismatch; 2 property predicate false on the implementation's output
    (raised, narrowed a witness value, or changed the type without its trigger). *)
-From MT Require Export Rewrite Hier Common.
+From MT Require Export Rewrite Hier RewriteTrigger Common.
 
 Record rcase := RCase {
   rrs : list rewriter;        (* the chain applied, in order *)
@@ -11,51 +11,16 @@ Record rcase := RCase {
   rws : list value            (* witness values *)
 }.
 
-(* --- trigger predicates: does the documented trigger occur anywhere the traversal reaches? --- *)
-Section Trig.
-Variable here : list ty -> bool.     (* trigger test on the members of one union *)
-Fixpoint any_union (t : ty) : bool :=
-  match t with
-  | TList x | TSet x | TTupleVar x => any_union x
-  | TDict k v => any_union k || any_union v
-  | TTuple ts => existsb any_union ts
-  | TGenerator a b c => any_union a || any_union b || any_union c
-  | TUnion ts => here ts || existsb any_union ts
-  | TTypedDict r o => existsb (fun f => any_union (snd f)) r || existsb (fun f => any_union (snd f)) o
-  | _ => false
-  end.
-End Trig.
-
-Fixpoint any_gen_none (t : ty) : bool :=
-  match t with
-  | TList x | TSet x | TTupleVar x => any_gen_none x
-  | TDict k v => any_gen_none k || any_gen_none v
-  | TTuple ts | TUnion ts => existsb any_gen_none ts
-  | TGenerator a (TCls 1%N) (TCls 1%N) => true
-  | TTypedDict r o => existsb (fun f => any_gen_none (snd f)) r || existsb (fun f => any_gen_none (snd f)) o
-  | _ => false
-  end.
-
-Definition trigger (r : rewriter) (t : ty) : bool :=
-  match r with
-  | RNoOp => false
-  | RRemoveEmpty => any_union (fun ts => existsb (fun e => is_empty e && has_nonempty_sibling e ts) ts) t
-  | RConfigDict =>
-      any_union (fun ts => match ts with
-                           | t0 :: rest => forallb is_tdict ts && forallb (fun e => py_eqb (dict_key t0) (dict_key e)) rest
-                           | [] => false end) t
-  | RLargeUnion n => any_union (fun ts => Nat.ltb n (List.length ts)) t
-  | RGenerator => any_gen_none t
-  | RCommonBase => any_union (fun ts => forallb (fun t => is_tcls t || is_td t) ts) t
-  end.
+(* the trigger predicates live in Model/RewriteTrigger.v (proved necessary for any change: Props/C07.v) *)
 
 (* 3 = the emitted class tables violate the premises of the C07 theorems (harness bug, never the code's fault) *)
 Definition verdict_c07 (h : hierarchy) (bt : bases_table) (c : rcase) : nat :=
   if negb (wf_hier h && bt_ok h bt) then 3 else
+  if negb (normal (rin c)) then 3 else        (* typing never builds a non-normal union *)
   if rraised c then 2
   else if negb (forallb (fun v => implb (member false (subclass h) v (rin c))
                                         (member true (subclass h) v (rimpl c))) (rws c)) then 2
   else if (match rrs c with
-           | [r] => negb (corrb (rin c) (rimpl c)) && negb (trigger r (rin c))
+           | [r] => negb (corrb (rin c) (rimpl c)) && negb (fires r (rin c))
            | _ => false end) then 2
   else if corrb (rw_chain h bt (rrs c) (rin c)) (rimpl c) then 0 else 1.
